@@ -303,7 +303,9 @@ class Effects:
                 if not rp[1]:
                     out.add(("p", j, ("",), rp[0], "*", None))
             elif not t.get("s", "").startswith("const ") and not (x["k"] == "decay" and (f.d(x["a"][0]) or {}).get("k") == "str"):
-                out.add(("ty", (t.get("s") or "").replace("*", "").strip() or None))
+                cty = (t.get("s") or "").replace("*", "").strip() or None
+                out.add(("ty", cty))
+                out.add(("p", j, ("",), None, None, cty))  # ... and the very object the argument designates (&local)
         return frozenset(out)
 
     def _translate(self, f, c, eg):
